@@ -248,6 +248,12 @@ def check(ctx):
     # ---- C08.d dispatch loops are exhaustive (shared with C01.b) ----
     nshared = core.adopt(ctx, c01, lambda o: o["rule"] == "C01.b" and ("schedule_removal_reactions" in o["key"] or "schedule_despawn_reactions" in o["key"]), "C08.d")
     ctx.floor("C08.d", nshared, 8, "shared C01.b obligations of the polled schedulers")
+    # a scheduled removal / despawn reaction is not merged with another pending one: its command prepares exactly one
+    # pending entry and calls the runner exactly once on every path (shared with C02.d / C11.prepared)
+    import c02 as _c02, c11 as _c11
+    nm = core.adopt(ctx, _c02, lambda o: o["rule"] == "C02.d" and "ReactionCommand" in o["key"] and "one-runner-call-per-path" in o["key"], "C08.f")
+    nm += core.adopt(ctx, _c11, lambda o: o["rule"] == "C11.prepared" and "appends-exactly-one-entry" in o["key"], "C08.f")
+    ctx.floor("C08.f", nm, 3, "shared one-run-per-scheduled-reaction obligations (C02.d, C11.prepared)")
     nk = core.adopt(ctx, c01, lambda o: o["rule"] == "C01.a" and "entity-scoped-dispatch:every-component-kind" in o["key"], "C08.d")
     ctx.floor("C08.d", nk, 1, "shared entity-scoped dispatch coverage (C01.a)")
 
